@@ -19,14 +19,14 @@ def run(ck, facts, tier):
     R = "C09.TRUNCATE"
     ck.rule(R, "K3: abstract_positive/negative_literal reach canonicalize (table creation) only on the false edge of needs_truncation; "
                "pursue_answer reaches push_answer only on the false edge and marks the table floundered on the true edge; "
-               "Fulfill::push_obligation pushes only after a false needs_truncation for both obligation kinds")
+               "Fulfill::push_obligation pushes only behind the false edge of needs_truncation on every path")
     for fn in ("abstract_positive_literal", "abstract_negative_literal"):
         b = need_body(ck, facts, R, "chalk_engine::forest::Forest::" + fn)
         if b:
             cfg = b.cfg
             sites = cfg.call_blocks("InferenceTable::canonicalize") + cfg.call_blocks("InferenceTable::u_canonicalize")
             n = guard_sites(ck, R, b, sites, cfg.bool_edges(trace_is_call(TRUNC), False), "canonicalize", "!needs_truncation(subgoal)")
-            ck.floor(R, fn + ".sites", n, 2)
+            ck.floor(R, fn + ".sites", n, 1)
     b = need_body(ck, facts, R, "chalk_engine::logic::SolveState::pursue_answer")
     if b:
         cfg = b.cfg
@@ -45,16 +45,8 @@ def run(ck, facts, tier):
         pushes = [i for i in cfg.call_blocks("Vec::push")]
         n = guard_sites(ck, R, b, pushes, cfg.bool_edges(trace_is_call(TRUNC), False), "obligations.push", "!needs_truncation(goal)")
         ck.floor(R, "push_obligation.push-sites", n, 1)
-        ms = enum_matches(b.thir, "chalk_recursive::fulfill::Obligation")
-        if len(ms) == 1:
-            for v in facts.variants("chalk_recursive::fulfill::Obligation"):
-                arm = ms[0]["arms"][select_arms(ms[0], V(v))[0][0]]
-                if has_call(arm["body"], TRUNC):
-                    ck.ok(R, "push_obligation:Obligation::%s-checked" % v)
-                else:
-                    ck.violation(R, "push_obligation:Obligation::%s-checked" % v, b.where(arm["ln"]), "this obligation kind is pushed without the size check")
-        else:
-            ck.violation(R, "push_obligation:match", b.where(), "expected one match on Obligation")
+        # (the guard is stated on MIR paths: every path to the push passes the false edge, whichever obligation kind it carries -
+        # no assumption on how the two kinds are told apart in the source)
 
     R = "C09.SELECTED-NOT-FLOUNDERED"
     ck.rule(R, "K3 (justifies an engine assertion): on_subgoal_selected asserts that the selected subgoal's table has not floundered; a "
